@@ -28,10 +28,12 @@ static int spec_gate_ready(const struct iauth_request *r)
 {
     return r->holds == 0 && !RESPONDED(r) && spec_required_met(r);
 }
-/* ... and no service is still awaited (soft hold) */
+/* "unless that client's configured request timeout has expired" - expiry is sticky */
+#define EXPIRED(r) (BITSET_GET((r)->flags, IAUTH_TIMED_OUT) != 0)
+/* ... and no service is still awaited (soft hold), unless the timeout has expired */
 static int spec_gate_open(const struct iauth_request *r)
 {
-    return spec_gate_ready(r) && r->soft_holds == 0;
+    return spec_gate_ready(r) && (r->soft_holds == 0 || EXPIRED(r));
 }
 
 /* ---- ghost recorder: contract of iauth_send -------------------------------------------- */
@@ -135,7 +137,7 @@ void model_check_request(struct iauth_request *req)
         G.gate_seq = G.seq;
     }
     if (spec_gate_ready(req)) {
-        if (req->soft_holds == 0)
+        if (spec_gate_open(req))
             model_accept(req);
         else if (!SOFT_DONE(req))
             model_soft_done(req);
